@@ -27,6 +27,40 @@ type Ctx struct {
 
 func (c *Ctx) Thorough() bool { return c.Tier == "thorough" }
 
+var borrowedReports = map[string]*Report{}
+
+// Borrow decides a clause of this property with a rule that belongs to another property's rule set: that rule set is run
+// on the same loaded program into a scratch report, and the obligations of its rule `from` that pass keep (nil: all) are
+// recorded here under the rule id `as`.  (One defect often breaks several properties; each check must see it by itself.)
+func (c *Ctx) Borrow(prop, from, as, doc string, floor int, keep func(o Obligation) bool) {
+	c.R.Rule(as, doc+" (rule "+from+" of "+prop+"'s rule set, decided here on the same program)", floor)
+	sub, ok := borrowedReports[prop]
+	if !ok {
+		run := registry[prop]
+		if run == nil {
+			c.R.Unknown(as, "borrowed:"+from, "", "rule set "+prop+" is not registered")
+			return
+		}
+		sub = NewReport(prop, c.Tier, 0)
+		sc := &Ctx{P: c.P, R: sub, Tier: c.Tier, VerifDir: c.VerifDir, RepoDir: c.RepoDir}
+		func() {
+			defer func() {
+				if rec := recover(); rec != nil {
+					sub.Unknown(from, "analyser", "", fmt.Sprintf("analyser panic in the borrowed rule set: %v", rec))
+				}
+			}()
+			run(sc)
+		}()
+		borrowedReports[prop] = sub
+	}
+	for _, o := range sub.Obls {
+		if o.Rule != from || (keep != nil && !keep(o)) {
+			continue
+		}
+		c.R.Add(as, o.Construct, o.Verdict, o.Pos, o.Detail)
+	}
+}
+
 type propertyCheck struct {
 	id  string
 	run func(*Ctx)
@@ -35,6 +69,10 @@ type propertyCheck struct {
 var registry = map[string]func(*Ctx){}
 
 func register(id string, f func(*Ctx)) { registry[id] = f }
+
+// extras: clauses a property shares with another property's rule set (see Ctx.Borrow); run after the property's own rules.
+// They are kept apart from registry so that borrowing never recurses.
+var extras = map[string]func(*Ctx){}
 
 func main() {
 	if len(os.Args) < 2 {
@@ -109,6 +147,9 @@ func cmdCheck(args []string) int {
 			}
 		}()
 		run(ctx)
+		if ex := extras[*prop]; ex != nil {
+			ex(ctx)
+		}
 	}()
 	return rep.Finish(*verif)
 }
